@@ -6,6 +6,7 @@ import H2V.Lemmas.ConnCountsPStreams2
 -/
 namespace H2V.Lemmas.ConnCountsP
 open H2V H2V.Model H2V.Model.Conn
+variable {ρ : Bool}
 
 structure KeysOK (s : Streams) : Prop where
   nodup : (s.store.slab.map (·.key)).Nodup
@@ -107,7 +108,7 @@ theorem KeysOK.remove {s : Streams} (h : KeysOK s) (k n : Nat) :
     have hx' : x ∈ s.store.slab.filter (·.key != k) := hx
     exact h.fresh x (List.mem_filter.mp hx').1
 
-theorem Ev.keysOK {s s' : Streams} (h : Ev s s') : KeysOK s → KeysOK s' := by
+theorem EvB.keysOK {s s' : Streams} (h : EvB ρ s s') : KeysOK s → KeysOK s' := by
   induction h with
   | refl s => exact id
   | trans _ _ ih1 ih2 => exact fun h => ih2 (ih1 h)
@@ -165,7 +166,7 @@ theorem transitionAfter_split (s : Streams) (k : Nat) (b : Bool) :
   simp only [Bool.false_and, Bool.false_eq_true, if_false, hst, hs1]
 
 /-- the tail of `EvT`'s `resetPop` -/
-theorem transitionAfter_false_ev (s : Streams) (k : Nat) : Ev s (s.transitionAfter k false) :=
+theorem transitionAfter_false_ev (s : Streams) (k : Nat) : EvB ρ s (s.transitionAfter k false) :=
   transitionAfter_ev s k false (fun h => Bool.noConfusion h)
 
 theorem EvT.keysOK {s s' : Streams} (h : EvT s s') : KeysOK s → KeysOK s' := by
